@@ -14,6 +14,8 @@ def _one(sc):
 
 
 def _init():
+    import logging
+    logging.getLogger('mpire').setLevel(logging.ERROR)
     signal.signal(signal.SIGALRM, lambda *_: os._exit(3))
 
 
